@@ -17,9 +17,17 @@ type Config struct {
 	Prealloc bool   `json:"prealloc,omitempty"`
 	SyncFull bool   `json:"syncfull,omitempty"`
 	SyncNone bool   `json:"syncnone,omitempty"` // Options.Sync = SyncNone (never in crash checks)
+	// MaxExtra: bytes added to the max size option so that it is not a multiple of the page size
+	// (bounded files only; the limit in pages is still MaxPages: a partial page does not count)
+	MaxExtra uint32 `json:"maxextra,omitempty"`
 }
 
-func (c Config) MaxSize() uint64 { return uint64(c.MaxPages) * uint64(c.PageSize) }
+func (c Config) MaxSize() uint64 {
+	if c.MaxPages == 0 {
+		return 0
+	}
+	return uint64(c.MaxPages)*uint64(c.PageSize) + uint64(c.MaxExtra%c.PageSize)
+}
 
 // Op is an operation inside a transaction. Small integers only; pages are
 // picked by position in the sorted list of eligible handles (A mod len).
